@@ -66,9 +66,9 @@ def table_vcs(pr, name, with_headers=True):
         hl = A.header_list(sf, hattr) if sf else None
         ok = hl is not None and all(0 <= c - hcol < len(hl) and hl[c - hcol] == h for c, (_, h) in cols.items())
         out.append(A.bvc(q, "writer", "column_headers_name_what_the_columns_carry", ok, REL, f"{hattr} = {hl}", open_=hl is None))
-        src = ast.unparse(pr.tree.modules[MOD].tree)
-        sheet_args = "summary_sheet, 0, 0)" if name == "__generate_yearly_gain_loss_summary" else f"sheet, row_index, {hcol})"
-        out.append(A.bvc(q, "writer", "header_is_written_from_the_first_bound_column", f"self.{hattr}, {sheet_args}" in " ".join(src.split()), REL))
+        owner = A.Fn(pr.tree, G + ("generate" if name == "__generate_yearly_gain_loss_summary" else name))
+        sheet_args = "summary_sheet, 0, 0" if name == "__generate_yearly_gain_loss_summary" else f"sheet, row_index, {hcol}"
+        out.append(A.bvc(q, "writer", "header_is_written_from_the_first_bound_column", owner.expr(f"self._fill_header(ANY, ANY, self.{hattr}, {sheet_args})"), REL))
     return out
 
 
